@@ -1,9 +1,9 @@
 #!/usr/bin/env python3
 """E4 generator for property C13 (compile-time evaluation == run-time execution).
 
-    python3 gen/C13_gen.py <part> --out <builddir> --seed N --tier quick|thorough
+    python3 gen/C13_gen.py <part>[+<part>] --out <builddir> --seed N --tier quick|thorough
 
-writes <builddir>/C13_gen_<part>.hpp: constexpr argument tables (bit patterns) and the list of
+(parts: cm64 cm32 cmld int8 num8 w1632 w64 cstr scen) writes <builddir>/C13_gen_<part>[_<part>].hpp: constexpr argument tables (bit patterns) and the list of
 (function, table) instantiations `C13_OBLIGATIONS(X)` that props/C13_cteval.cpp (compiled with -DC13_PART_<PART>)
 turns into  (a) constexpr result tables computed by the compiler, each block wrapped in the non-fatal
 constant-expression probe, and (b) run-time calls on the same arguments laundered through volatile.
@@ -409,9 +409,16 @@ BITPOS = ('set_bit', 'reset_bit', 'flip_bit', 'test_bit', 'set_bit0', 'set_bit1'
 SATCASTS = ('i32_i8', 'i32_u8', 'u32_i8', 'i64_i32', 'u64_i64', 'i64_u64', 'i8_u8', 'u8_i8', 'i16_u32', 'u64_u16', 'i64_i16', 'i32_u32', 'u32_i32')
 
 
-def build(part, seed, tier, pinned):
+def build(parts, seed, tier, pinned):
+    """parts: 'a' or 'a+b' (several parts compiled into one translation unit)"""
+    L = Listing(parts, pinned)
+    for part in parts.split('+'):
+        build_part(L, part, seed, tier)
+    return L.emit(seed, tier)
+
+
+def build_part(L, part, seed, tier):
     rng = random.Random('C13/%s/%d' % (part, seed))      # the tier changes table sizes, not the stream's seed
-    L = Listing(part, pinned)
     if part == 'cm64':
         cmath_part(F64, 'f64', float_tables(F64, rng, tier), L)
     elif part == 'cm32':
@@ -513,7 +520,6 @@ def build(part, seed, tier, pinned):
             L.ob(f, f.replace('scen_', 'scenario.'), 'sd')
     else:
         raise SystemExit('unknown part ' + part)
-    return L.emit(seed, tier)
 
 
 def main():
@@ -525,7 +531,7 @@ def main():
     a = ap.parse_args()
     text = build(a.part, a.seed, a.tier, load_pinned())
     os.makedirs(a.out, exist_ok=True)
-    final = os.path.join(a.out, 'C13_gen_%s.hpp' % a.part)
+    final = os.path.join(a.out, 'C13_gen_%s.hpp' % a.part.replace('+', '_'))
     tmp = final + '.tmp.%d' % os.getpid()        # two optimisation variants of one part are generated concurrently: atomic, identical content
     with open(tmp, 'w') as f:
         f.write(text)
